@@ -3,6 +3,7 @@ mod matcher;
 mod exec;
 mod config;
 mod envdir;
+mod shellstate;
 
 use common::*;
 use std::sync::Mutex;
@@ -35,6 +36,7 @@ fn main() {
             "C05" | "C14" | "C15" | "C20" => exec::replay(&prop, &r),
             "C16" => config::replay(&prop, &r),
             "C18" => envdir::replay(&prop, &r),
+            "C12" => shellstate::replay(&prop, &r),
             _ => { eprintln!("no replay for {prop}"); false }
         };
         std::process::exit(if ok { 0 } else { 1 });
@@ -46,6 +48,7 @@ fn main() {
         "C05" | "C14" | "C15" | "C20" => exec::run(&ctx, &prop),
         "C16" => config::run(&ctx, &prop),
         "C18" => envdir::run(&ctx, &prop),
+        "C12" => shellstate::run(&ctx, &prop),
         _ => { eprintln!("unknown property {prop}"); std::process::exit(2); }
     }
     let rep = ctx.report.lock().unwrap();
